@@ -517,6 +517,19 @@ func runC20(r *core.Run) {
 		}
 		structured = append(structured, neg)
 	}
+	// operands with repeated columns or rows in every pattern (p,q,q / p,p,q / p,q,p / p,p,p): singular,
+	// but their products are defined
+	for _, pat := range [][3]int{{0, 1, 1}, {0, 0, 1}, {0, 1, 0}, {0, 0, 0}} {
+		vecs := [2][3]float64{{1, -2, 3.5}, {0.25, 4, -1}}
+		var byCol, byRow matrix.Matrix3
+		for c := 0; c < 3; c++ {
+			for rw := 0; rw < 3; rw++ {
+				byCol[c][rw] = vecs[pat[c]][rw]
+				byRow[c][rw] = vecs[pat[rw]][c]
+			}
+		}
+		zeroProd = append(zeroProd, byCol, byRow)
+	}
 	for _, z := range zeroProd {
 		for _, o := range []matrix.Matrix3{{{1, 2, 3}, {4, 5, 6}, {7, 8, 10}}, z} {
 			for _, pr := range [][2]matrix.Matrix3{{z, o}, {o, z}} {
